@@ -2,6 +2,7 @@ mod aisle;
 mod calls;
 mod docs;
 mod project;
+mod subsets;
 mod fraction;
 mod prec;
 mod sym;
@@ -17,6 +18,7 @@ fn main() {
         "spans" => prec::main_spans(&args[1..]),
         "calls" => calls::main(&args[1..]),
         "docs" => docs::main(&args[1..]),
+        "subsets" => subsets::main(&args[1..]),
         "fraction" => fraction::main(&args[1..]),
         "selfcheck" => println!("ok"),
         _ => {
